@@ -354,6 +354,7 @@ def run(chk: Check) -> None:
     run_meta_tests_use_meta(chk, ix)
     run_suppression_reason(chk, ix)
     run_import_diagnosis_has_cached_standins(chk, ix)
+    run_lookup_memo_independent_of_caller(chk, ix)
     # the cached interface must come back as it was written (bound from C11: R11.11, None is encoded exactly)
     from ..resolve import Resolver
     from .c11 import run_none_encoding
@@ -766,3 +767,44 @@ def run_import_diagnosis_has_cached_standins(chk: Check, ix) -> None:
             r19.ok(key, mnf.loc(sites[0]))
         else:
             r19.violation(key, mnf.loc(unguarded[0]), f"`caller_state.{attr}` is read at {len(unguarded)} place(s) without a `caller_state.tree` alternative: for an importing module loaded from the cache the value is the one State.__init__ computed, not the one parsing would produce (for `options`: inline `# mypy:` configuration such as disable-error-code / ignore-errors is missing), so the warm run reports a missing import the cold run does not")
+
+
+def run_lookup_memo_independent_of_caller(chk: Check, ix) -> None:
+    """R02.20: what FindModuleCache remembers about a module does not depend on who asked first."""
+    from ..cfg import branch_conditions
+    r20 = chk.rule("R02.20", "FindModuleCache.find_module memoises its answer in `self.results[id]`, keyed by the module id alone, and takes a per-call flag (`fast_path`) that selects a coarser answer (NOT_FOUND where the full lookup says WRONG_WORKING_DIRECTORY). A warm run makes the fast lookup first (load_graph's scan for added modules), a cold run does not, so a store into the memo must not depend on a per-call parameter that is not part of the key: every `self.results[...] = ...` in find_module is reached under conditions that do not mention such a parameter, except through a branch that returns without storing", floor=2)
+    c = ix.cls("mypy.modulefinder.FindModuleCache")
+    f = c.methods.get("find_module")
+    if f is None:
+        raise AnalysisError("FindModuleCache.find_module not found")
+    a_ = f.node.args
+    params = {p.arg for p in a_.posonlyargs + a_.args + a_.kwonlyargs} - {"self"}
+    par = f.module.parents()
+    n = 0
+    for a in ast.walk(f.node):
+        if not (isinstance(a, ast.Assign) and isinstance(a.targets[0], ast.Subscript) and norm(a.targets[0].value) == "self.results"):
+            continue
+        n += 1
+        key_names = {x.id for x in ast.walk(a.targets[0].slice) if isinstance(x, ast.Name)}
+        extra = params - key_names
+        pos, neg = branch_conditions(par, f.node, a, early_exits=True)
+        # conditions that merely lead to an early return without a store do not make the stored value depend on them
+        dep = set()
+        for t in pos:
+            dep |= {x.id for x in ast.walk(t) if isinstance(x, ast.Name)} & extra
+        for t in neg:
+            names = {x.id for x in ast.walk(t) if isinstance(x, ast.Name)} & extra
+            if names:
+                # negated test of an earlier arm: fine when that arm exits without storing
+                arm = next((i for i in ast.walk(f.node) if isinstance(i, ast.If) and norm(i.test) == norm(t)), None)
+                stores = arm is not None and any(isinstance(s_, ast.Assign) and isinstance(s_.targets[0], ast.Subscript) and norm(s_.targets[0].value) == "self.results" for st in arm.body for s_ in ast.walk(st))
+                exits = arm is not None and isinstance(arm.body[-1], (ast.Return, ast.Raise))
+                if stores or not exits:
+                    dep |= names
+        key = f"find_module: `{norm(a)[:50]}` stores an answer that depends on the key only"
+        if not dep:
+            r20.ok(key, f.loc(a))
+        else:
+            r20.violation(key, f.loc(a), f"the store is control-dependent on {sorted(dep)}, which is not part of the memo key {sorted(key_names)}: the first caller's flag decides what every later caller is told (warm: [import-not-found]; cold: [import] with the 'running mypy in a subpackage' note)")
+    if n < 2:
+        raise AnalysisError(f"find_module: only {n} stores into self.results found")
